@@ -924,11 +924,15 @@ package genetics
 //@   mode nosafety
 //@   modifies network.Link.ConnectionWeight, Gene.MutationNum
 //@   ensures [record] result1 == nil ==> (forall i :: 0 <= i && i < len(g.Genes) ==> g.Genes[i].MutationNum == g.Genes[i].Link.ConnectionWeight)
+//@   ensures_local [onlyOwnGenes] forall x *Gene :: wasAllocated(x) && (forall i :: 0 <= i && i < len(g.Genes) ==> g.Genes[i] != x) ==> x.MutationNum == old(x.MutationNum)
+//@   ensures_local [onlyOwnLinks] forall l *network.Link :: wasAllocated(l) && (forall i :: 0 <= i && i < len(g.Genes) ==> g.Genes[i].Link != l) ==> l.ConnectionWeight == old(l.ConnectionWeight)
 //@   requires g != nil && nonNilGenes(g.Genes) && geneLinksWF(g.Genes)
 //@   requires [ownLinks] forall i, j :: 0 <= i && i < j && j < len(g.Genes) ==> g.Genes[i] != g.Genes[j] && g.Genes[i].Link != g.Genes[j].Link
 //@   loop 1:
 //@     invariant -1 <= #idx && #idx < len(g.Genes)
 //@     invariant [record] forall i :: 0 <= i && i <= #idx ==> g.Genes[i].MutationNum == g.Genes[i].Link.ConnectionWeight
+//@     invariant [onlyOwnGenes] forall x *Gene :: wasAllocated(x) && (forall i :: 0 <= i && i < len(g.Genes) ==> g.Genes[i] != x) ==> x.MutationNum == old(x.MutationNum)
+//@     invariant [onlyOwnLinks] forall l *network.Link :: wasAllocated(l) && (forall i :: 0 <= i && i < len(g.Genes) ==> g.Genes[i].Link != l) ==> l.ConnectionWeight == old(l.ConnectionWeight)
 //@ func (*neat.Trait).Mutate
 //@   props C05
 //@   mode nosafety
@@ -1117,7 +1121,8 @@ package genetics
 //@   assert [size] len(arg2) == old(len(p.Organisms)) + max(opts.PopSize, 0) @ before 1 speciate
 //@   assert [topology] forall k :: old(len(p.Organisms)) <= k && k < len(arg2) ==> arg2[k] != nil && fresh(arg2[k]) && fresh(arg2[k].Genotype) && arg2[k].Genotype.Id == k - old(len(p.Organisms)) && sameTopology(arg2[k].Genotype, g) @ before 1 speciate
 //@   loop 1:
-//@     invariant 0 <= count && (count <= opts.PopSize || count == 0) && len(p.Organisms) == old(len(p.Organisms)) + count
+//@     focus count, startKept, startLinks, startNodes, startLists
+//@     invariant [count] 0 <= count && (count <= opts.PopSize || count == 0) && len(p.Organisms) == old(len(p.Organisms)) + count
 //@     invariant [startKept] forall x *Gene :: wasAllocated(x) ==> x.InnovationNum == old(x.InnovationNum) && x.IsEnabled == old(x.IsEnabled) && x.Link == old(x.Link)
 //@     invariant [startLinks] forall l *network.Link :: wasAllocated(l) ==> l.InNode == old(l.InNode) && l.OutNode == old(l.OutNode) && l.IsRecurrent == old(l.IsRecurrent)
 //@     invariant [startNodes] forall n *network.NNode :: wasAllocated(n) ==> n.Id == old(n.Id) && n.NeuronType == old(n.NeuronType) && n.ActivationType == old(n.ActivationType)
